@@ -477,6 +477,63 @@ impl Universe {
     }
 }
 
+/// All subsets of size 1..=max_k of a word list, addressed by rank (combinatorial number system).
+pub struct SmallSubsets {
+    pub words: Vec<String>,
+    pub max_k: usize,
+    binom: Vec<Vec<u64>>,
+    offsets: Vec<u64>,
+}
+
+impl SmallSubsets {
+    pub fn new(words: Vec<String>, max_k: usize) -> SmallSubsets {
+        let n = words.len();
+        let mut binom = vec![vec![0u64; max_k + 1]; n + 1];
+        for i in 0..=n {
+            binom[i][0] = 1;
+            for k in 1..=max_k.min(i) {
+                binom[i][k] = binom[i - 1][k - 1] + if k <= i - 1 { binom[i - 1][k] } else { 0 };
+            }
+        }
+        let mut offsets = vec![0u64];
+        for k in 1..=max_k {
+            let last = *offsets.last().unwrap();
+            offsets.push(last + binom[n][k]);
+        }
+        SmallSubsets { words, max_k, binom, offsets }
+    }
+    /// {a,b,c}^{1..=3}: 39 words
+    pub fn abc3(max_k: usize) -> SmallSubsets {
+        let mut w = words_upto(&["a", "b", "c"], 3);
+        w.retain(|x| !x.is_empty());
+        SmallSubsets::new(w, max_k)
+    }
+    pub fn count(&self) -> u64 {
+        *self.offsets.last().unwrap()
+    }
+    pub fn subset(&self, rank: u64) -> Vec<String> {
+        let k = (1..=self.max_k).find(|&k| rank < self.offsets[k]).unwrap_or(self.max_k);
+        let mut r = rank - self.offsets[k - 1];
+        // unrank the r-th k-combination in colexicographic order
+        let mut out = vec![];
+        let mut kk = k;
+        let mut n = self.words.len();
+        while kk > 0 {
+            // largest c < n with C(c, kk) <= r
+            let mut c = kk - 1;
+            while c + 1 < n && self.binom[c + 1][kk] <= r {
+                c += 1;
+            }
+            r -= self.binom[c][kk];
+            out.push(self.words[c].clone());
+            n = c;
+            kk -= 1;
+        }
+        out.reverse();
+        out
+    }
+}
+
 pub const LIFTS: &[(&str, &[(&str, &str)])] = &[
     ("lift:meta", &[("a", "\\"), ("b", "."), ("c", "|")]),
     ("lift:flags", &[("a", "🇩🇪"), ("b", "\\"), ("c", "é")]),
